@@ -7,6 +7,7 @@ package main
 import (
 	"crypto/sha256"
 	"encoding/hex"
+	"encoding/json"
 	"fmt"
 	"os"
 	"path/filepath"
@@ -533,7 +534,8 @@ func observe(c *lib.Ctx, class, what string, input any) {
 	c.Hist("command_not_reapi_canonical", class)
 	if !observed[class] {
 		observed[class] = true
-		c.Note("observed on the real buildCommand [%s]: %s; first witness: %v", class, what, input)
+		js, _ := json.Marshal(input)
+		c.Note("observed on the real buildCommand [%s]: %s; first witness: %s", class, what, js)
 	}
 }
 
@@ -622,6 +624,22 @@ func cmdStream(c *lib.Ctx, n int) {
 				shown = append(shown, p.Name+"="+p.Value)
 			}
 			observe(c, "platform-properties-not-sorted", fmt.Sprintf("Platform properties %v are not sorted by name then value (label properties in declaration order, then the configured ones)", shown), map[string]any{"decl": d, "properties": shown})
+		}
+		pl := []int{}
+		for j, l := range d.Labels {
+			if strings.HasPrefix(l, "remote-platform-property:") && strings.Contains(l, "=") {
+				pl = append(pl, j)
+			}
+		}
+		if len(pl) >= 2 && d.Labels[pl[0]] != d.Labels[pl[1]] {
+			d2 := d
+			d2.Labels = append([]string{}, d.Labels...)
+			d2.Labels[pl[0]], d2.Labels[pl[1]] = d2.Labels[pl[1]], d2.Labels[pl[0]]
+			_, dg2, err := runCmd(d2)
+			c.Oracle()
+			if err == nil && dg2 != dg0 {
+				observe(c, "command-digest-depends-on-platform-label-order", "permuting the remote-platform-property labels changes the Command digest", map[string]any{"decl": d, "other": d2})
+			}
 		}
 		// model case
 		named := []string{}
